@@ -9,7 +9,14 @@
   constants for `E·λ²`, `v·λ` in Decimal): density scaling, count scaling (`c*formula`, scaled
   dict), permutation, regrouping (flatten to a dict, reversed nesting, wrapped in a group with
   divided counts, split entries, Hill form), energy vs wavelength, vector vs scalars,
-  natural_density vs density, non-negativity of every result.
+  natural_density vs density, non-negativity of every result;
+  same-charge ions of different isotopes of one element in one compound (distinct atoms, 12% of the cases);
+  `stage_two_tables`: the same nuclide from the public table and from a private table with revised neutron
+  records in one compound - listed, reversed, grouped, as a dict, as the sum of its public and private parts in
+  both orders; `stage_weighted_parts`: a compound given as weighted parts (`neutron_composite_sld`) with parts
+  whose text forms coincide (shared name=, counts equal to six digits, same text from two tables) - parts listed
+  forwards vs backwards vs `neutron_sld` of the summed formula ("depend only on composition per unit mass,
+  density and wavelength"; the calculator itself is C17's subject).
 """
 from __future__ import annotations
 
@@ -25,7 +32,11 @@ RULE = ("related pairs generated together: (compound, ρ, λ) with k·ρ; c·cou
         "scaled dict; a shuffled / regrouped / split / flattened / Hill-ordered structure of nesting "
         "depth 0..3 over atoms with data (incl. ions, energy-dependent); energy=E(λ) vs wavelength=λ; "
         "a vector of 1..6 wavelengths vs its scalars; natural_density vs the equivalent density; "
-        "conversions on log-uniform E, λ, v and vectors; a case is non-trivial when the compound has "
+        "conversions on log-uniform E, λ, v and vectors; 12% of the structures hold 2..3 same-charge ions of "
+        "different isotopes of one element; 300 (quick) compounds holding the same nuclide from the public and from "
+        "a private table with revised records in 8..10 orders/groupings/sums; 200 (quick) compounds given as "
+        "2..4 weighted parts whose text forms coincide, parts forwards / backwards / summed; "
+        "a case is non-trivial when the compound has "
         ">= 2 distinct atoms or a nested group; distinct by canonical input")
 
 
@@ -231,9 +242,28 @@ def model_lines(case, atoms):
     return L
 
 
+def gen_isotope_ions(rng, pools):
+    """2..3 ions of the same charge of different isotopes of one element (the natural element's ion among
+    them in 40%): an isotopically enriched salt written with explicit charges.  They are distinct atoms."""
+    groups = getattr(pools, "_ion_groups", None)
+    if groups is None:
+        d = {}
+        for z, A, q in pools.ions:
+            d.setdefault((z, q), []).append(A)
+        groups = pools._ion_groups = sorted((k, sorted(v)) for k, v in d.items() if len(v) >= 2)
+    (z, q), As = rng.choice(groups)
+    picks = rng.sample(As, 3 if len(As) >= 3 and rng.random() < 0.3 else 2)
+    if 0 in As and 0 not in picks and rng.random() < 0.4:
+        picks[rng.randrange(len(picks))] = 0
+    return [(rng.choice([1, 1, 2, 3, 4, 0.5, 1.5]), (z, A, q)) for A in picks]
+
+
 def gen_case(rng, pools):
     import random
     s = gen_struct(rng, pools)
+    if rng.random() < 0.12:
+        for e in gen_isotope_ions(rng, pools):
+            s.insert(rng.randrange(len(s) + 1), e)
     vseed = rng.randrange(2 ** 31)
     return dict(struct=s, vseed=vseed, density=nc.gen_density(rng), w=nc.gen_wavelength(rng, pools),
                 k=rng.choice([2.0, 0.5, 10.0, 1e-3, 3.7, 0.1, 1.0000001, 123.456, 1e-9, 1e-12, 1e6]),
@@ -374,6 +404,196 @@ def stage_no_density(run, pt, pools, n):
                 break
 
 
+# --------------------------------------------------------------------------- atoms of two tables in one compound
+
+def _mixed_objs(pt, T, entries):
+    return tuple((c, pyside.atom_of(tuple(k), T if priv else pt.elements)) for c, k, priv in entries)
+
+
+def _mixed_forms(pt, T, entries, rho):
+    """[(name, Formula)]: the same atoms (each from its own table) listed / grouped / summed in different ways"""
+    from periodictable.formulas import formula
+    objs = _mixed_objs(pt, T, entries)
+    pub = tuple(o for o, e in zip(objs, entries) if not e[2])
+    prv = tuple(o for o, e in zip(objs, entries) if e[2])
+    h = max(1, len(objs) // 2)
+    forms = [("listed", formula(objs, density=rho)),
+             ("reversed", formula(tuple(reversed(objs)), density=rho)),
+             ("private atoms first", formula(prv + pub, density=rho)),
+             ("public atoms first", formula(pub + prv, density=rho)),
+             ("first half in a group", formula(((2.0, tuple((c / 2, a) for c, a in objs[:h])),) + objs[h:], density=rho)),
+             ("last half in a group", formula(objs[:h] + ((4.0, tuple((c / 4, a) for c, a in objs[h:])),), density=rho))]
+    if pub and prv:
+        a, b = formula(pub), formula(prv)
+        forms.append(("sum: public part + private part", _with_density(a + b, rho)))
+        forms.append(("sum: private part + public part", _with_density(b + a, rho)))
+    d1, d2 = {}, {}
+    for c, a in objs:
+        d1[a] = d1.get(a, 0) + c
+    for c, a in reversed(objs):
+        d2[a] = d2.get(a, 0) + c
+    forms.append(("dict", formula(d1, density=rho)))
+    forms.append(("dict, reversed insertion", formula(d2, density=rho)))
+    return forms
+
+
+def _mixed_results(pt, T, inp):
+    from periodictable.constants import avogadro_number
+    rho, w = inp["density"], inp["w"]
+    forms = _mixed_forms(pt, T, inp["entries"], rho)
+    f = forms[0][1]
+    n_atoms = sum(f.atoms.values())
+    N = n_atoms / (f.mass / rho / avogadro_number * 1e24) if f.mass > 0 else 0.0
+    return N, [(name, scalar(pt, g, w)) for name, g in forms]
+
+
+def stage_two_tables(run, pt, pools, n):
+    """one compound holding the same nuclide from two tables (the public one and a private one with revised
+    neutron records): every atom carries its own record, so listing, grouping or summing the same atoms in
+    another order changes nothing"""
+    rng = run.rng
+    try:
+        T = nc.revised_private_table()
+    except Exception as e:  # noqa
+        run.violation("a private table with revised data cannot be set up: %s: %s" % (type(e).__name__, e),
+                      dict(kind="two-tables"), relation="regrouping/reordering", site="two-tables")
+        return
+    for i in range(n):
+        entries = []
+        seen = set()
+        for _ in range(rng.choice([1, 1, 2, 3])):
+            k = pools.atom(rng)
+            if k in seen:
+                continue
+            seen.add(k)
+            # the same nuclide from both tables (now and then under another charge in the private one)
+            entries.append([rng.choice([1, 2, 3, 4, 6, 0.5, 1.5, 12]), list(k), False])
+            k2 = k
+            if rng.random() < 0.2:
+                qs = [q for (z, A, q) in pools.ions if (z, A) == k[:2] and q != k[2]]
+                if qs:
+                    k2 = (k[0], k[1], rng.choice(qs))
+            entries.append([rng.choice([1, 2, 3, 4, 6, 0.5, 1.5, 12]), list(k2), True])
+        for _ in range(rng.choice([0, 1, 2])):
+            k = pools.atom(rng)
+            if k not in seen:
+                seen.add(k)
+                entries.append([rng.choice([1, 2, 3, 4, 0.5, 8]), list(k), rng.random() < 0.5])
+        rng.shuffle(entries)
+        inp = dict(kind="two-tables", entries=entries, density=nc.gen_density(rng), w=nc.gen_wavelength(rng, pools))
+        run.count(key=("two-tables", repr(entries), inp["density"], inp["w"]), nontrivial=True, tag="two-tables",
+                  sample=inp if i < 2 else None)
+        try:
+            N, res = _mixed_results(pt, T, inp)
+        except Exception as e:  # noqa
+            run.violation("a compound of atoms from two tables raises %s: %s" % (type(e).__name__, e), inp,
+                          relation="regrouping/reordering", site="two-tables")
+            continue
+        base_name, b = res[0]
+        for name, r in res[1:]:
+            if not nc.scat_close(b, r, N):
+                run.violation("invariance broken: the same atoms (the same nuclide from a private table with revised neutron "
+                              "records and from the public table) %s differ from the atoms as %s" % (name, base_name),
+                              inp, relation="regrouping/reordering", site="two-tables", variant=name)
+                break
+        check_nonneg(run, b, inp)
+
+
+# --------------------------------------------------------------------------- compounds given as weighted parts
+
+def _composite_materials(pt, T, inp):
+    from periodictable.formulas import formula
+    ms = []
+    for m in inp["materials"]:
+        tbl = T if m.get("private") else pt.elements
+        ms.append(formula(pyside.struct_objs(_fix(m["struct"]), tbl), name=m.get("name")))
+    return ms
+
+
+def _composite_results(pt, T, inp):
+    """the compound sum_k w_k*material_k at one density: through the calculator for weighted parts with the parts
+    listed forwards and backwards, and as the explicitly summed formula -> per wavelength 3 x [re, im, inc], N, tot"""
+    import functools
+    import operator
+    import numpy as np
+    from periodictable import nsf
+    from periodictable.constants import avogadro_number
+    ms = _composite_materials(pt, T, inp)
+    wts = [float(x) for x in inp["weights"]]
+    ws = inp["ws"]
+    warg = ws[0] if inp["scalar"] else np.array(ws, dtype=float)
+    n = len(ws)
+    rho = inp["density"]
+
+    def cols(v):
+        c = [np.broadcast_to(np.asarray(x, dtype=float), (n,)) for x in v]
+        return [[float(x[i]) for x in c] for i in range(n)]
+
+    fwd = nsf.neutron_composite_sld(ms, wavelength=warg)(np.array(wts), density=rho)
+    rev = nsf.neutron_composite_sld(ms[::-1], wavelength=warg)(np.array(wts[::-1]), density=rho)
+    mix = functools.reduce(operator.add, [w * m for w, m in zip(wts, ms)])
+    direct = nsf.neutron_scattering(mix, density=rho, wavelength=warg)
+    full = [nc.scat_tuple(direct)] if inp["scalar"] else nc.scat_vectors(direct, n)
+    N = sum(mix.atoms.values()) / (mix.mass / rho / avogadro_number * 1e24)
+    return cols(fwd), cols(rev), [x[:3] for x in full], N, [nc.sigma_total_xs(x) for x in full]
+
+
+def stage_weighted_parts(run, pt, pools, n):
+    """`neutron_composite_sld(parts, wavelength)(weights, density)` is the neutron SLD of the compound
+    sum_k weights[k]*parts[k] at that density: it depends on the composition, the density and the wavelength only -
+    not on the order in which the parts are listed, their display names, how their counts print, or the table
+    object an atom was taken from.  Parts whose text forms coincide are generated on purpose."""
+    rng = run.rng
+    try:
+        T = nc.revised_private_table()
+    except Exception as e:  # noqa
+        run.violation("a private table with revised data cannot be set up: %s: %s" % (type(e).__name__, e),
+                      dict(kind="weighted-parts"), relation="regrouping/reordering", site="weighted-parts")
+        return
+    for i in range(n):
+        kind = rng.choice(["same-name", "nearby-counts", "two-tables", "repeated"])
+        s1 = gen_struct(rng, pools, maxdepth=1)
+        if kind == "same-name":
+            # e.g. the h- and the d-form of one molecule, both carrying the molecule's name
+            mats = [dict(struct=s1, name="part"), dict(struct=gen_struct(rng, pools, maxdepth=1), name="part")]
+        elif kind == "nearby-counts":
+            # two steps of a composition fit: one count differs in the seventh digit
+            j = rng.randrange(len(s1))
+            s2 = [(c * (1 + 3e-7) if jj == j else c, f) for jj, (c, f) in enumerate(s1)]
+            mats = [dict(struct=s1), dict(struct=s2)]
+        elif kind == "two-tables":
+            mats = [dict(struct=s1), dict(struct=s1, private=True)]
+        else:
+            mats = [dict(struct=s1), dict(struct=s1)]
+        for _ in range(rng.choice([0, 1, 1, 2])):
+            mats.insert(rng.randrange(len(mats) + 1), dict(struct=gen_struct(rng, pools, maxdepth=1)))
+        weights = [rng.choice([1.0, 2.0, 0.5, 3.0, 12.0, 0.25]) if rng.random() < 0.5 else round(rng.uniform(0.05, 20), 3)
+                   for _ in mats]
+        scalar_w = rng.random() < 0.5
+        ws = [nc.gen_wavelength(rng, pools) for _ in range(1 if scalar_w else rng.randint(1, 4))]
+        inp = dict(kind="weighted-parts", materials=mats, weights=weights, density=nc.gen_density(rng), ws=ws,
+                   scalar=scalar_w)
+        run.count(key=("weighted-parts", repr(mats), repr(weights), inp["density"], repr(ws), scalar_w), nontrivial=True,
+                  tag="weighted-parts:" + kind, sample=inp if i < 2 else None)
+        try:
+            fwd, rev, direct, N, tot = _composite_results(pt, T, inp)
+        except Exception as e:  # noqa
+            run.violation("a compound given as weighted parts raises %s: %s" % (type(e).__name__, e), inp,
+                          relation="regrouping/reordering", site="weighted-parts")
+            continue
+        for j in range(len(ws)):
+            if not nc.sld_close(fwd[j], rev[j], N, tot[j]):
+                run.violation("invariance broken: the SLD of a compound given as weighted parts changes when the parts are "
+                              "listed in reverse order (entry %d): %r vs %r" % (j, fwd[j], rev[j]), inp,
+                              relation="regrouping/reordering", site="weighted-parts", variant="reversed parts")
+                break
+            if not nc.sld_close(fwd[j], direct[j], N, tot[j]):
+                run.violation("invariance broken: the SLD of a compound given as weighted parts differs from neutron_sld of "
+                              "the same atoms summed into one formula (entry %d): %r vs %r" % (j, fwd[j], direct[j]), inp,
+                              relation="regrouping/reordering", site="weighted-parts", variant="summed formula")
+                break
+
+
 def run(run: Run) -> int:
     pt = import_repo()
     run.prove(generated=["Constants", "NeutronConsts"])
@@ -390,6 +610,8 @@ def run(run: Run) -> int:
     # what was computed in between (stale or poisoned state)
     run_cases(run, pt, tl, cases[:150])
     stage_no_density(run, pt, pools, 150 if quick else 5000)
+    stage_two_tables(run, pt, pools, 300 if quick else 20000)
+    stage_weighted_parts(run, pt, pools, 200 if quick else 10000)
     return run.finish(RULE, assumptions=[
         "floating-point rounding: relations are compared at 1e-9 relative (incoherent terms with the cancellation-aware rule of DESIGN 4.5)",
         "numpy broadcasting is modelled as the pointwise map (vector_is_map is a theorem about that model; the correspondence compares the real vector call with it)"])
@@ -403,6 +625,8 @@ def _fix(s):
     for c, f in s:
         if isinstance(f, list) and len(f) == 3 and all(isinstance(v, int) for v in f):
             out.append((c, tuple(f)))
+        elif pyside.is_key(f):
+            out.append((c, f))
         else:
             out.append((c, _fix(f)))
     return out
@@ -421,6 +645,17 @@ def replay(data) -> int:
             print("  wavelength(E)=%r energy(λ)=%r wavelength(v)=%r" % (
                 float(nsf.neutron_wavelength(x)), float(nsf.neutron_energy(x)),
                 float(nsf.neutron_wavelength_from_velocity(x))))
+            continue
+        if inp.get("kind") == "two-tables" and "entries" in inp:
+            N, res = _mixed_results(pt, nc.revised_private_table(), inp)
+            for name, r in res:
+                print("  %-34s %s" % (name, r))
+            continue
+        if inp.get("kind") == "weighted-parts" and "materials" in inp:
+            fwd, rev, direct, N, tot = _composite_results(pt, nc.revised_private_table(), inp)
+            print("  parts as listed  :", fwd)
+            print("  parts reversed   :", rev)
+            print("  summed formula   :", direct)
             continue
         if inp.get("kind") == "no-density":
             s = _fix(inp["struct"])
